@@ -8,7 +8,7 @@ from ..safetylegs import sym_sequence
 from ..samplinglegs import check_sampling
 from ..cxx.engine import ast_info, program, is_sym
 
-ALPHA = ["iterate", "iterate_n:2", "run:1", "sample", "progress", "fetch2", "finalize", "init"]
+ALPHA = ["iterate", "iterate_n:sym", "run:1", "sample", "progress", "fetch2", "finalize", "init"]
 
 
 def sequences(L):
@@ -105,7 +105,9 @@ def _replay_sticky(opt, kind):
             while e.iterate() and k < 10 ** 6:
                 k += 1
             p0, o0 = e.get_progress(), e.get_output()
-            rets = [e.iterate() for _ in range(5)] + [e.iterate_n(3), e.run(0)]
+            rets = []
+            for call in [e.iterate] * 5 + [lambda: e.iterate_n(3), lambda: e.run(0), lambda: e.iterate_n(0), lambda: e.iterate_n(1)]:
+                rets.append(bool(call()) or not e.is_complete())      # 'continue', or a completion status that went back to 'not complete'
             p1, o1 = e.get_progress(), e.get_output()
             e.finalize()
             if any(rets) or p0 != p1 or list(o0.data.value) != list(o1.data.value) or list(o0.t.value) != list(o1.t.value):
@@ -169,7 +171,7 @@ def run(rec):
     program()
     rec.extra["ast"] = ast_info()
     L = 3 if rec.tier == "quick" else 4
-    rec.assume("call sequences: ALL sequences of length <= %d over {iterate, iterate_n(2), run(1 ms), sample, get_progress, fetch (twice), finalize, set-up} that respect the life cycle (after finalize only finalize or a new set-up); using a released engine is outside the property" % L)
+    rec.assume("call sequences: ALL sequences of length <= %d over {iterate, iterate_n(n) with n a solver variable in [0, 2], run(1 ms), sample, get_progress, fetch (twice), finalize, set-up} that respect the life cycle (after finalize only finalize or a new set-up); using a released engine is outside the property" % L)
     rec.assume("wall-clock readings of engineexport_run are arbitrary non-decreasing integers (stub of system_clock::now); runs are cut at 3 loop iterations (unwinding bound, counted in paths_cut_at_unwinding_bound)")
     rec.assume("requested times are solver variables; the Euler state is symbolic; stochastic engines run from the concrete catalogue state with arbitrary random draws")
     rec.assume("fixed-step completion count: proved as floor(t_max/dt)+1 for symbolic dt and t_max (same harness as C09)")
